@@ -913,7 +913,14 @@ func (g *Gen) instr(in ssa.Instruction, st *State) {
 		g.panicInstr(x, st)
 	case *ssa.Go:
 		g.goInstr(x, st)
-	case *ssa.Select, *ssa.Send, *ssa.MakeChan:
+	case *ssa.MakeChan:
+		g.setVal(x, g.newRef(st), x.Type())
+	case *ssa.Send:
+		// a send may block and lets other goroutines run
+		if len(g.shared()) > 0 {
+			g.interfere(st)
+		}
+	case *ssa.Select:
 		g.unsup("channel operation %T", in)
 	default:
 		g.unsup("instruction %T", in)
